@@ -190,6 +190,30 @@ Section IDFacts.
     apply custom_with_in in Hc. now apply (userinfo_scopes_granted s _ Es).
   Qed.
 
+  Lemma userinfo_scopes_eq s : id_userinfo_scopes f cl rq access = Some s -> s = granted.
+  Proof.
+    unfold id_userinfo_scopes, granted. destruct (is_exchange f) eqn:Ex.
+    - intros E0; inversion E0; subst. unfold id_scopes. now rewrite Ex.
+    - destruct (id_scopes f cl rq access) eqn:Es; [discriminate|]. intros E0; now inversion E0.
+  Qed.
+
+  (* the claims of a granted scope are present *)
+  Lemma id_user_present x :
+    u = Some x ->
+    (negb (string_in "profile" granted) || (i_name ic =s u_name x)) = true
+    /\ (negb (string_in "email" granted) || (i_email ic =s u_email x)) = true.
+  Proof.
+    intro Hu. unfold ic, mk_id_token.
+    destruct (id_userinfo_scopes f cl rq access) as [s|] eqn:Es.
+    - rewrite <- (userinfo_scopes_eq s Es). rewrite Hu.
+      cbn [id_with_custom set_userinfo userinfo i_name i_email ui_name ui_email].
+      destruct (string_in "profile" s), (string_in "email" s); cbn [negb orb]; rewrite ?eqb_refl_s; auto.
+    - assert (Hg : granted = []).
+      { unfold id_userinfo_scopes in Es. unfold granted. destruct (is_exchange f); [discriminate|].
+        destruct (id_scopes f cl rq access); [reflexivity | discriminate]. }
+      rewrite Hg. split; reflexivity.
+  Qed.
+
   Lemma id_user_claims :
     ((i_name ic =s "") || string_in "profile" granted) = true
     /\ ((i_email ic =s "") || string_in "email" granted) = true
@@ -474,6 +498,9 @@ Proof.
   - exact Up.
   - exact Upv.
   - exact Ua.
+  - pose proof (id_user_present Hf (cs_issuer c) (cs_flow c) (cs_client c) (case_key_id c) (cs_user c) (cs_req c) acc (cs_now0 c)) as P.
+    rewrite <- Hic in P.
+    destruct (cs_user c) as [x|]; [|reflexivity]. destruct (P x eq_refl) as [P1 P2]. now rewrite P1, P2.
   - apply forallb_forall. intros e He. rewrite Hic in He.
     apply (id_extra Hf (cs_issuer c) (cs_flow c) (cs_client c) (case_key_id c) (cs_user c) (cs_req c) acc (cs_now0 c)) in He.
     apply He.
